@@ -213,7 +213,7 @@ REACH = {
     "C10": ["probes/r3_checked", "probes/r4_checked", "reach_probes/env:edit_truth", "reach_probes/env_transform:crlf", "reach_probes/sync with one file named under two kinds",
             "reach_probes/sync with two files of one kind"],
     "C09": ["probes/a2_checked", "a3_interface_checks/ok", "prestate_cells/class|class|missing|cli", "prestate_cells/function|class|stale|api", "prestate_cells/argparse_function|function|empty|cli"],
-    "C11": ["probes/c11_checked"],
+    "C11": ["probes/c11_checked", "probes/c11_body_carried_checked"],
     "C14": ["probes/sp_checked"],
 }
 
